@@ -462,18 +462,26 @@ def main():
     # ---------------- verdict
     tie_broken = bool(mismatches) or drv is None or not res["ok"] or bool(errors) or bool(xlines) or bool(lat_viol)
     search_info = {}
-    if tie_broken and not oracle_viol:
+    if tie_broken and not oracle_viol and not other_viol:
         # search mode: more of the real implementation against the plain queue (the traces above were
         # already checked by the oracle); budget quick 60 s / thorough 10 min
         budget = 60 if tiername == "quick" else 600
         ts = time.time(); rounds = 0
-        while time.time() - ts < budget and not oracle_viol and rounds < (2 if tiername == "quick" else 20):
-            sh = tie_shard(exe, None, seed * 7 + 1000 + rounds, "search", f"search{rounds}")
+        only_tx = bool(mismatches) and all(m["case"].startswith("T") for m in mismatches) and res["ok"] and drv and not errors and not xlines and not lat_viol
+        while time.time() - ts < budget and not oracle_viol and not other_viol and rounds < (2 if tiername == "quick" else 20):
+            if only_tx:
+                # the disagreement is in TransactionalFifo: hunt there
+                o2 = other_run(exe, None, seed * 7 + 1000 + rounds, "thorough", tag=f"search_other{rounds}")
+                if "error" not in o2:
+                    other_viol = o2["viol"]
+                    search_info["extra_cases"] = search_info.get("extra_cases", 0) + o2["cases"]
+            else:
+                sh = tie_shard(exe, None, seed * 7 + 1000 + rounds, "search", f"search{rounds}")
+                if "impl" in sh:
+                    a2 = new_agg(); sm2 = []
+                    compare(sh["impl"], None, a2, [], oracle_viol, [], [], sm2)
+                    search_info["extra_cases"] = search_info.get("extra_cases", 0) + a2["cases"]
             rounds += 1
-            if "impl" in sh:
-                a2 = new_agg(); sm2 = []
-                compare(sh["impl"], None, a2, [], oracle_viol, [], [], sm2)
-                search_info["extra_cases"] = search_info.get("extra_cases", 0) + a2["cases"]
         search_info["rounds"] = rounds
 
     known, _fixed = V.known_findings(CID)
@@ -496,7 +504,7 @@ def main():
             m = mismatches[0]
             emit(dict(property=CID, kind="tie-mismatch", case=m["case"], event=m["event"], observed=m["observed"], expected=m["expected"],
                       context=m.get("context"), n_mismatching_cases=len(mismatches),
-                      what="real scl::Fifo and the extracted Coq machine (FifoDefs.v) disagree cycle-accurately on this schedule; the theorems of Properties_C15.v no longer describe the implementation",
+                      what="the real FIFO (scl::Fifo for C cases, scl::TransactionalFifo for T cases) and the extracted Coq machine (FifoDefs.v / FifoTxDefs.v) disagree cycle-accurately on this schedule; the theorems of Properties_C15.v no longer describe the implementation",
                       theorems_failed=res["failed"], model_extracts=drv is not None,
                       search=search_info, how_to_replay="checks/C15.py --replay <this file>"), nofail=True, tag="tie")
         elif lat_viol:
